@@ -386,6 +386,10 @@ pub struct Tracker {
     pub configured_roles: Option<(Vec<String>, Vec<String>)>,
     /// the same, as in force before the latest accepted request
     pub roles_before_last_accepted: Option<(Vec<String>, Vec<String>)>,
+    /// orders that by the reference model have left the book (completely filled, cancelled,
+    /// expired or rejected) although an entry is still stored under their id
+    pub zombie_asks: BTreeSet<String>,
+    pub zombie_bids: BTreeSet<String>,
 }
 
 // ---------------------------------------------------------------- judge / runner
@@ -981,6 +985,20 @@ impl Runner {
                 }
             }
         }
+        if exp.verdict == model::Verdict::Accept && !exp.alts.is_empty() {
+            for id in &ask_ids {
+                if after.asks.contains_key(id) && exp.alts.iter().all(|e| !e.asks.contains_key(id)) {
+                    t.zombie_asks.insert(id.clone());
+                }
+            }
+            for id in &bid_ids {
+                if after.bids.contains_key(id) && exp.alts.iter().all(|e| !e.bids.contains_key(id)) {
+                    t.zombie_bids.insert(id.clone());
+                }
+            }
+        }
+        t.zombie_asks.retain(|id| after.asks.contains_key(id));
+        t.zombie_bids.retain(|id| after.bids.contains_key(id));
         for id in &ask_ids {
             if before.asks.contains_key(id) && !after.asks.contains_key(id) {
                 t.closed_asks.insert(id.clone());
